@@ -478,6 +478,9 @@ func TestC18(t *testing.T) {
 	}
 	st.Set("evaluations", st.Get("sequential_ops")+st.Get("race_rounds")+st.Get("interceptor_steps")+st.Get("prune_shift_rounds"))
 	st.Set("traces_validated_against_impl", nSeq-disagreements)
+	if !hasConcrete(st.Violations) {
+		streamCallFailsAsInjected(t, st)
+	}
 	st.Set("rule", "random sequential Add/Check/Current sequences on the real faults.Set compared op by op with the Lean model (which description fired / pass / listing); calls through UnaryFaultInjector with protobuf requests; racing goroutines asserting the exact count min(N, matching calls); distinct = distinct sequential op sequences; a matching call racing with prunes that compact the description list in front of its description")
 	st.Summary = fmt.Sprintf("sequences=%d disagreements=%d race_rounds=%d", nSeq, disagreements, st.Get("race_rounds"))
 }
